@@ -10,7 +10,7 @@ CONSTANTS
   Mode = "lemma"
   Cap = 8192
   Dev = {}
-INIT Init
+INIT InitAT
 NEXT Next
 INVARIANTS GenInv
 CHECK_DEADLOCK FALSE
